@@ -318,6 +318,14 @@ func scriptedHandler(cr **chainRun, i int, h *Sx) flamego.Handler {
 			body(c)
 			return mkBytes(ret[0].Args()[0]), mkErr(ret[1].Args()[0])
 		}
+	// shapes outside the table: nothing is rendered for them
+	case "other,str,":
+		return func(c flamego.Context) (bool, string) { body(c); return true, ret[1].Args()[0].Bytes() }
+	case "int,str,err,":
+		return func(c flamego.Context) (int, string, error) {
+			body(c)
+			return ret[0].Args()[0].Int(), ret[1].Args()[0].Bytes(), mkErr(ret[2].Args()[0])
+		}
 	}
 	panic(badInput("return shape " + shape))
 }
@@ -506,6 +514,12 @@ func genRet(rng *rand.Rand, rich bool) []*Sx {
 	if rng.Intn(100) < p {
 		return nil
 	}
+	if rich && rng.Intn(10) == 0 { // shapes the table does not know: (bool, string), three values
+		if rng.Intn(2) == 0 {
+			return []*Sx{T("other"), str()}
+		}
+		return []*Sx{in(), str(), er()}
+	}
 	switch rng.Intn(9) {
 	case 0:
 		return []*Sx{str()}
@@ -611,7 +625,7 @@ func genC14(rng *rand.Rand, n int, tier string, emit func(*Sx)) {
 		if rng.Intn(2) == 0 {
 			action = genHandler(rng, 0, false, false, true)
 		}
-		emit(chainInput(rng, mw, route, nil, action, 1))
+		emit(chainInput(rng, mw, route, nil, action, 1+rng.Intn(3)/2)) // every third case serves a second request
 	}
 }
 
